@@ -83,6 +83,7 @@ class Trace:
         self.tags = {}  # okey/tkey -> set(root-cause markers)
         self.shadow = collections.defaultdict(list)  # market -> orders accepted by place_order (C15)
         self.placed_trades = set()  # id(trade) of trades charged to a runner context (executed placements)
+        self.undisciplined = set()  # (strategy, market, sel, hc) where an order was accepted while another was unacknowledged / forced
         self.reused_complete_trades = set()  # a new order was placed in an already COMPLETE trade (outside C10)
         self.distinct = set()
         self.rng = None
@@ -302,6 +303,7 @@ def attach(tr):
                     "trade_status": trade.status.name,
                     "position": position_view(self.market, strategy) if kind in ("PLACE", "REPLACE") and TR.want_positions else None,
                     "book": book_view(self.market) if kind in ("PLACE", "REPLACE") and TR.want_positions else None,
+                    "candidate": exposure_view(order) if kind in ("PLACE", "REPLACE") and TR.want_positions else None,
                     "args": [repr(x) for x in a],
                     "kw": {x: repr(y) for x, y in kw.items()},
                     "before": before,
@@ -319,6 +321,12 @@ def attach(tr):
                     rec["pend"] = (pend_before, (len(self._pending_place), len(self._pending_cancel), len(self._pending_update), len(self._pending_replace)))
                     raise
                 rec["result"] = res
+                if res and rec["position"] is not None:
+                    # acknowledgement discipline (C01 domain note): an earlier order on the selection was still unacknowledged
+                    if any(v["status"] == "PENDING" and tuple(v["sel"]) == (order.selection_id, order.handicap) and v["o"] != k for v in rec["position"]):
+                        TR.undisciplined.add((strategy.name, market.market_id, order.selection_id, order.handicap))
+                    if rec["force"]:
+                        TR.undisciplined.add((strategy.name, market.market_id, order.selection_id, order.handicap))
                 if kind == "PLACE" and res:
                     TR.shadow[market.market_id].append(order)
                     if rec["execute"]:
